@@ -137,6 +137,8 @@ Definition sh_dkind (k : dkind) : string :=
   | DK_DupPacket => "DupPacket" | DK_MultiRoot => "MultiRoot" | DK_UnknownPacket => "UnknownPacket"
   | DK_LenNotRoot => "LenNotRoot" | DK_LenDup => "LenDup" | DK_DupMatchKey => "DupMatchKey"
   | DK_UnexpectedField => "UnexpectedField"
+  | DK_UnknownMeta => "UnknownMeta" | DK_PadNotFixed => "PadNotFixed" | DK_AttrOnObject => "AttrOnObject"
+  | DK_UnknownLenTarget => "UnknownLenTarget" | DK_UnknownMatchKey => "UnknownMatchKey" | DK_DupField => "DupField"
   end.
 
 Definition sh_diag (d : diag) (acc : string) : string :=
